@@ -948,7 +948,7 @@ class CallMixin:
         if not gen.ifs:
             st.pc.append(rth.Len(r) == th.Len(seq))
             st.pc.append(z3.ForAll([k], z3.Implies(inrange, rth.Idx(r, k) == vz),
-                                   patterns=[rth.Idx(r, k)]))
+                                   patterns=[rth.Idx(r, k), th.Idx(seq, k)]))   # either side of the map fires it
         else:
             # filtered: every element of r is the image of a source element satisfying the filter
             j = z3.Int(fresh_name("j"))
